@@ -167,3 +167,30 @@ def skip_switches(f, cfg, body, head, site_bb):
         if any(x in body and x != site_bb and not cfg.reaches(x, [site_bb], avoid=[head]) for x in succs):
             out.append((b2, t2))
     return out
+
+
+def new_async_helper(prog, t, crate_prefix="harper_ls::"):
+    """the coroutine body of the async helper a call creates, if that helper did not exist on the reference tree"""
+    from . import inline
+    from .util import norm
+    known = inline.load_known() or set()
+    inst = t["f"].get("inst") or ""
+    body = prog.fns.get(inst + "::{closure#0}")
+    if body is None or not body.get("coroutine") or norm(inst) in known or not inst.startswith(crate_prefix):
+        return None
+    return body
+
+
+def helper_stage_calls(prog, body, suffixes):
+    """awaited calls inside an async helper body to Backend methods with one of the given name suffixes, in dominance order:
+    [(suffix, block, term)]"""
+    from .cfg import Cfg
+    out = []
+    for bi, t in body.calls():
+        i = inst_of(t)
+        for sfx in suffixes:
+            if i.endswith("::" + sfx) and awaited(body, bi):
+                out.append((sfx, bi, t))
+    cfg = Cfg(body)
+    out.sort(key=lambda x: sum(1 for y in out if cfg.dominates(y[1], x[1])))
+    return out
